@@ -716,6 +716,18 @@ fn main() {
 }
 """, ("small",))
 
+prog("finding_const_logical_fold", """
+const YES: bool = true;
+const NO: bool = false;
+@compute @workgroup_size(1)
+fn main() {
+  ou[0] = select(1u, 2u, YES && YES);
+  ou[1] = select(1u, 2u, NO || YES);
+  ou[2] = select(1u, 2u, true && YES);
+  ou[3] = select(1u, 2u, (YES && YES) && (iu[0] < 100u));
+}
+""", ("small",))
+
 # ---- layout probes (block layouts compared with the IR's offsets; no execution needed) ----
 LAYOUT = []
 
